@@ -210,10 +210,11 @@ def run(ctx):
     c14.run(ctx, only_fields=c02.buffer_field(F), rule_prefix="R08.7")
     ctx.floor("R08.7", "buffers and per-set maps checked for reset-before-use", len([i for i in ctx.instances[before7:] if i["rule"] == "R08.7" and "clean-at-first-use" in i["instance"]]), 7)
     # ------------------------------------------------------------------ R08.6 declared entry dimensions are registered before they are adopted
-    VM = "validation_map"
+    VMS = registry_fields(F)
+    ctx.floor("R08.6", "name-registry fields of the per-call writer", len(VMS), 1)
 
     def on_map(b, pr, c):
-        return bool(c.args) and any(x[0] == "arg" and x[2] and x[2][-1] == VM for x in pr.operand(c.args[0]))
+        return bool(c.args) and any(x[0] == "arg" and x[2] and x[2][-1] in VMS for x in pr.operand(c.args[0]))
 
     def skip_edges(b, pr):
         """{(switch bb, target): flag} for the outcome 'skip flag is true'"""
@@ -345,6 +346,24 @@ def member_emission_sites(F):
     return out
 
 
+def registry_fields(F):
+    """names of the field(s) holding the per-entry name registry: HashMap-typed fields of the type that implements the core
+    EntryWriter trait in the EMF crate (identified by role, not by the name `validation_map`)"""
+    c_ = getattr(F, "_registry_fields", None)
+    if c_ is None:
+        c_ = set()
+        for imp in F.impls_of("EntryWriter"):
+            if imp["crate"] != CR:
+                continue
+            adt = F.adts.get((imp.get("self_head") or {}).get("adt") or "")
+            for v in (adt or {}).get("variants", []):
+                for f in v["fields"]:
+                    if "HashMap<" in f["ty"]:
+                        c_.add(f["name"])
+        F._registry_fields = c_
+    return c_
+
+
 def registered(F, b, name_op, depth):
     pr = Prov(b, adapter_pred=lambda t: (t.get("callee") or {}).get("name") in ("deref", "as_ref", "borrow", "as_str"))
     no = pr.operand(name_op)
@@ -355,7 +374,7 @@ def registered(F, b, name_op, depth):
             if len(c.args) < 2:
                 continue
             mo = pr.operand(c.args[0])
-            if not any(x[0] == "arg" and "validation_map" in x[2] for x in mo):
+            if not any(x[0] == "arg" and set(x[2]) & registry_fields(F) for x in mo):
                 continue
             ko = pr.operand(c.args[1])
             kr = {(x[1], x[2]) for x in ko if x[0] == "arg"}
@@ -395,6 +414,6 @@ def registered_fields(F, b, fieldpaths):
         if c.name == "entry_ref" and len(c.args) >= 2:
             mo = pr.operand(c.args[0])
             ko = pr.operand(c.args[1])
-            if any(x[0] == "arg" and "validation_map" in x[2] for x in mo) and any(x[0] == "arg" and x[1] == 1 and x[2] in fieldpaths for x in ko):
+            if any(x[0] == "arg" and set(x[2]) & registry_fields(F) for x in mo) and any(x[0] == "arg" and x[1] == 1 and x[2] in fieldpaths for x in ko):
                 return True, "registered by entry_ref in %s" % b.path
     return False, ""
